@@ -183,7 +183,8 @@ def _bind(chk, drv, stores, graphs, kf):
     for n, sc in enumerate(scheds):
         per = {}
         for b in BACK:
-            if b == "poll" and n % 3:
+            if (b == "poll" and n % 3) or drv.LIVELOCKS.get(b, 0) >= 2:
+                per[b] = ([], 0)
                 continue
             # the polling default only progresses on ticks: put one after every batch
             sc_b = [bt + [drv.cmd("tick")] for bt in sc] if b == "poll" else sc
@@ -205,6 +206,8 @@ def _bind(chk, drv, stores, graphs, kf):
         if n % 3:
             continue
         for b in ("memory", "sqlite"):
+            if drv.LIVELOCKS.get(b, 0) >= 2:
+                continue
             tr, errs = event_api.run_schedule(stores, b, subs, stepwise(sc), modes[(n // 3) % 3])
             if tr:
                 singles.append({"kind": "single", "style": "api_" + b, "ev": tr, "api": 1})
